@@ -40,7 +40,10 @@ func vp_C20_expiry() {
 // refused for everybody; garbage does not parse.
 func vp_C20_binding() {
 	secret := []byte("secret-key-0001")
-	user := "@" + vpNondetStringN("user", 1) + ":x"
+	// an arbitrary two-character local name (printable ASCII), with or without the usual sigil
+	un := vpNondetStringN("user", 2)
+	vpAssume(un[0] >= 0x20 && un[0] < 0x7F && un[1] >= 0x20 && un[1] < 0x7F)
+	user := un + ":x"
 	op := TokenOptions{ServerPrivateKey: secret, ServerName: "x", UserID: user, Duration: 10}
 	vpClockAlign(5) // away from the minute boundary (see KF-C20-1)
 	tok, err := GenerateLoginToken(op)
@@ -50,7 +53,9 @@ func vp_C20_binding() {
 	vpSleep(0)
 	vpAssert("validates", ValidateToken(op, tok) == nil)
 	other := op
-	other.UserID = "@" + vpNondetStringN("user2", 1) + ":x"
+	un2 := vpNondetStringN("user2", 2)
+	vpAssume(un2[0] >= 0x20 && un2[0] < 0x7F && un2[1] >= 0x20 && un2[1] < 0x7F)
+	other.UserID = un2 + ":x"
 	vpSleep(0)
 	vpAssert("other-user-refused", (ValidateToken(other, tok) == nil) == (other.UserID == user))
 	wrongKey := op
